@@ -167,7 +167,9 @@ def any_spec(draw):
     if draw(st.integers(0, 3)) == 0:
         sc["drop_keys"] = draw(st.lists(st.integers(0, 12), min_size=1, max_size=6))
     # capture times: epoch values, relative times starting at exactly 0, stripped times (all 0), or file order that is not time order
-    tm = draw(st.sampled_from([None, None, None, None, "zero", "zero_all", "disorder"]))
+    if draw(st.integers(0, 3)) == 0:
+        sc["stale_out"] = draw(st.sampled_from([100, 40000, 400000]))      # something is already at the output path
+    tm = draw(st.sampled_from([None, None, None, None, "zero", "zero_all", "disorder", "long_gaps"]))
     if tm:
         sc["times"] = tm
     return sc
